@@ -147,7 +147,9 @@ reg("C01", harness="c01_deflate", level="exploration", deadline=(400, 2400), ext
                "decode to its input and equal a fresh object's output byte for byte. Encoder part: the ICF->bits kernels (base/_04/_06) on EVERY assignment "
                "of 16 token realisations (widths 2..48, dense around the per-lane limits) to the four lanes of a half-vector x both halves x bit "
                "phases 0..7, bit-exact against an independent concatenation of the codes. ADLEREDGE inputs (Adler-32 low word exactly 0, 1, 65520 at the end of the input "
-               "or at a chunk boundary) go through the full product, so the zlib trailer is checked at the wrap-around points of the modulus.",
+               "or at a chunk boundary) go through the full product, so the zlib trailer is checked at the wrap-around points of the modulus. FIBDIST inputs (copies whose "
+               "distance codes have Fibonacci frequencies) make the encoder's own distance trees exceed 15 levels; the evidence counts produced blocks with 15-bit "
+               "distance and literal/length codes. Level-buffer sizes between the named constants on 300 000-byte inputs; a log-file-like data pattern next to the periodic text.",
     level_note="inputs outside the families are not covered; trusted: ref/ref_inflate.c (self-checked against zlib), zlib 1.2.13",
     runs={"quick": [dict(flavour="sim", part="sweep"), dict(flavour="sim", part="reuse"), dict(flavour="sim", part="encdf"), dict(flavour="lht", part="sweep")],
           "thorough": [dict(flavour="sim", part="sweep"), dict(flavour="sim", part="reuse"), dict(flavour="sim", part="encdf"), dict(flavour="h8k", part="sweep"), dict(flavour="lht", part="sweep")]},
@@ -188,7 +190,9 @@ reg("C07", harness="c07_stream", level="model_checking", deadline=(500, 2400), e
                "compared with the one-shot/reference result, and from EVERY reachable state generous calls must terminate correctly (progress). "
                "Longer streams (up to >64 KiB output) are covered by the closure of all single split points and all uniform chunk-size pairs. "
                "Stored-fallback family: 300 000 (1 MiB) incompressible / mixed bytes x levels 1-3 x 8 level-buffer sizes (the named ones and the sizes half-way "
-               "between them) x 6 (7) input piece sizes x 3 output piece sizes, every piece in its own mapping that is scribbled once consumed.",
+               "between them) x 6 (7) input piece sizes x 3 output piece sizes, every piece in its own mapping that is scribbled once consumed. Big-then-tiny histories "
+               "on 150 000-byte inputs: a call given 2000..100 000 bytes (below and above the internal staging buffer) with 1..4000 bytes of output, then a call "
+               "presenting 0/1/7/300 bytes with any flush kind, for every named level-buffer size; the stream object sits directly behind an inaccessible page every other run.",
     level_note="chunk sizes outside the alphabets and histories on long streams beyond single-split/uniform are not covered; flush budget <=1 (2) "
                "and <=2 consecutive empty calls bound the deflate graph; a graph that hits its state cap is reported (exhaustive:false).",
     runs={"quick": [dict(flavour="sim", part="inflate"), dict(flavour="sim", part="deflate"), dict(flavour="sim", part="deflate-layers")],
@@ -205,7 +209,9 @@ reg("C14", harness="c14_flush", level="model_checking", deadline=(300, 1800), ex
                "at any position, SYNC/FULL in any mix) is checked: marker 00 00 FF FF on a byte boundary, the prefix decodes (reference, prefix "
                "mode) to exactly the input handed over so far, state NEW_HDR; at every terminal each FULL-flush suffix is decoded with an EMPTY "
                "window. Longer repetitive inputs: one or two flush requests at every call index / pair of indices; exact-fit histories: the flushing call offers "
-               "exactly the room left in the internal staging buffer (read from the live object after 6 kinds of earlier calls) -2..+2 bytes. One-shot: all ordered pairs "
+               "exactly the room left in the internal staging buffer (read from the live object after 6 kinds of earlier calls) -2..+2 bytes; pending-flush histories: after a "
+               "completed FULL_FLUSH segment of 3000..40000 bytes a short flushing call (1..8191 bytes) with 1..100 bytes of output, then draining calls with or without more "
+               "input; the stream object sits directly behind an inaccessible page every other run (a look-back in front of the history faults). One-shot: all ordered pairs "
                "from 48 inputs x levels x 3 CPU levels: FULL_FLUSH output is unterminated + byte aligned and concatenates into one valid stream.",
     level_note="flush budget 2 in graphs; positions sweep uses uniform input chunks; trusted: ref/ref_inflate.c window/distance accounting.",
     runs={"quick": [dict(flavour="sim", part="graphs"), dict(flavour="sim", part="positions"), dict(flavour="sim", part="stateless")],
@@ -221,7 +227,9 @@ reg("C10", harness="c10_bound", level="model_checking", deadline=(360, 1800), ex
                "inaccessible page; success must be a complete decodable stream within the bound, failure must be STATELESS_OVERFLOW and only "
                "below the bound; counters must equal bytes moved. (ii) the state graph of isal_deflate with end_of_stream set under ALL "
                "sequences of non-empty output chunk sizes: every path reaches ZSTATE_END, every call progresses (level 0 also with the RFC "
-               "fixed tables and with a hostile custom table that expands the input). (ii-b) the state graph with the input arriving in "
+               "fixed tables and with a hostile custom table that expands the input). (ii-a) big-then-tiny histories on 150 000-byte inputs (log-like / mixed data): a call "
+               "given 2000..100 000 bytes with 1..4000 bytes of output, then a call presenting 0/1/7/300 bytes with any flush kind, all named level buffers: exact "
+               "bookkeeping and termination. (ii-b) the state graph with the input arriving in "
                "several pieces ({0,1,8,rest} x output {0,1,2,5,10,rest} x flush kinds x late end_of_stream): no call writes beyond avail_out "
                "(guard pages) and counters equal bytes moved on every transition. (ii-c) multi-block streams with block-type transitions "
                "(KiBs of text + incompressible + text, minimum level buffer): EVERY first-output-buffer size up to the stream size and every uniform "
@@ -258,7 +266,8 @@ reg("C11", harness="c11_checksum", level="fault_enumeration", deadline=(300, 240
                "state.crc must equal the reference checksum. Producer: trailers of all levels x 4 wrapper modes x 5 chunkings x 4 CPU levels "
                "are recomputed independently. Streams of 2^32+77782 bytes (32-bit total_in/total_out and ISIZE wrap, 16-bit hash indices) go through "
                "isal_deflate in 1 MiB pieces (quick: levels 0-1 on constant data; thorough: all levels x constant / mixed data): trailer against the "
-               "reference, then decoded again by isal_inflate (gzip verification) and zlib and compared with the input. Boundary part: a payload whose running Adler-32 "
+               "reference, then decoded again by isal_inflate (gzip verification) and zlib and compared with the input. One-shot producer with the output space swept from 12 bytes "
+               "under the documented bound to the bound on incompressible inputs of 65535..131072 bytes (whatever returns COMP_OK must carry its trailer). Boundary part: a payload whose running Adler-32 "
                "halves pass through 0, 1, 65519, 65520 is split at EVERY position (output split for the verifier in 4 modes x 2 encodings, input "
                "split x 3 flush kinds x 4 levels for the producer) on the base/sse/avx2 Adler kernels, plus every boundary-valued prefix as a whole payload.",
     level_note="multi-bit corruptions that preserve CRC-32/Adler-32 are outside first-order closure (checksums are not collision-free); trusted: "
@@ -288,7 +297,8 @@ reg("C18", harness="c18_huff", level="exploration", deadline=(300, 1800), extra_
     level_text="For 12 symbol subsets mixing literal/EOB/length/distance positions ALL 8^5 (8^6) weight assignments from {0,1,2,2^10,2^20,2^30,2^43,"
                "2^44-1}, Fibonacci and power-of-two prefixes (17..40 lit/len x 16..30 distance symbols), constants, single symbols and histograms "
                "from every collector variant on SHAPES, and the asymmetric family (each of the 30 distance symbols x chosen length symbols x a "
-               "literal alone at the bottom of a chain of narrow symbols, everything else heavy): both builders must succeed; the stored dynamic header is parsed by the independent decoder "
+               "literal alone at the bottom of a chain of narrow symbols, everything else heavy), and the mixed-magnitude family (8..253 literals at 2^43 / 2^44-1 next to literals "
+               "with counts 1..3, total beyond 2^48): both builders must succeed; the stored dynamic header is parsed by the independent decoder "
                "to complete codes <= 15 bits; every one of the 257+256+30(+dist table) packed entries, emitted as the encoder emits it, decodes to "
                "its symbol; worst-case payloads (incl. the widest literal directly before the match with the widest length and distance codes, "
                "derived from the parsed header, both parities) and the source data round-trip at level 0 (all flush modes, 3 kernels). Installing a table is "
